@@ -40,6 +40,12 @@ typedef struct SimConfig {
     uint64_t jump_at[4]; uint64_t jump_ns[4]; int njump;
     /* stall: withhold tid for n decisions starting at decision d */
     uint64_t stall_at; int stall_tid; uint64_t stall_len;
+    /* slow application inside an API call: at a scheduling point of task 0 within an API call, with this probability,
+       withhold task 0 for up to api_stall_len decisions (the library keeps running) */
+    int      api_stall_permille; uint64_t api_stall_len;
+    /* fine-grained preemption (build variant "fine": library compiled with -finstrument-functions): every fine_period-th
+       (seeded, on average) function entry of library code is a forced preemption point */
+    uint64_t fine_period;
     int      record_trace;   /* keep deviation list for output */
 } SimConfig;
 
@@ -53,6 +59,7 @@ typedef struct SimStats {
     uint64_t alloc_faults_fired, thread_faults_fired, eintr_fired, spurious_fired, eperm_fired, jumps_fired, stall_fired;
     uint64_t max_runnable;
     uint64_t dev_inapplicable;
+    uint64_t fine_preemptions, fine_calls;
 } SimStats;
 
 /* fatal outcome callback: class e.g. "DEADLOCK","LIVELOCK","STEP_LIMIT","TRAP_EXIT","TRAP_ABORT","SIM_INTERNAL" */
@@ -82,6 +89,8 @@ uint64_t sim_last_failed_site(void);
 size_t sim_live_blocks(uint64_t *sites, uint64_t *seqs, size_t n);
 /* describe wait-for table into buf */
 void sim_describe(char *buf, size_t n);
+/* return addresses recorded when task tid last blocked (0 if it is not blocked) */
+size_t sim_blocked_pcs(int tid, uintptr_t *out, size_t n);
 /* thread naming (roles) for starvation targeting and diagnostics: start routine address -> role is done by harness */
 void *sim_thread_fn(int tid);
 int  sim_nthreads(void);
